@@ -530,6 +530,87 @@ for _k, _op in (('lt', 'Lt'), ('le', 'Le'), ('gt', 'Gt'), ('ge', 'Ge')):
 B.traits.setdefault(('PartialEq', 'eq'), []).insert(0, (lambda info: type_key(info['selfty']) in _TIME_TYS, _dur_cmp('Eq')))
 
 
+# ------------------------------------------------------------------------------------------ thread-local state
+# `thread_local!` keys are global cells kept in the state's environment (`tls:<key>`); a fresh thread starts with the
+# default of the cell's content type.  Check C19 inspects the environment of every leaf: a decode that leaves a
+# non-default value behind makes the next decode depend on this one.
+def _tls_default(info):
+    gens = info.get('allgenerics') or []
+    t = gens[0] if gens else ''
+    t = t.strip('<>')
+    for wrap in ('Cell<', 'RefCell<', 'core::cell::Cell<', 'std::cell::Cell<', 'core::cell::RefCell<', 'std::cell::RefCell<'):
+        if t.startswith(wrap):
+            t = t[len(wrap):-1]
+            break
+    tk = type_key(t)
+    if tk == 'Vec':
+        return Vec(())
+    if tk == 'String':
+        return RString(())
+    if tk == 'Option':
+        return NONE
+    if t.strip() in INT_TYPES:
+        return Int(t.strip(), 0)
+    if t.strip() == 'bool':
+        return False
+    raise ExecError('thread-local of type %s is not modelled' % t)
+
+
+@B.path('LocalKey::new')
+def localkey_new(ex, st, info, args):
+    a = args[0]
+    name = a.name if isinstance(a, (FnDef, Closure)) else str(getattr(a, 'p', a))
+    return Opaque('tls', name)
+
+
+def _tls_slot(key):
+    if not (isinstance(key, Opaque) and key.kind == 'tls'):
+        raise ExecError('LocalKey method on %r' % (key,))
+    return 'tls:' + str(key.p)
+
+
+@B.path('LocalKey::take')
+def localkey_take(ex, st, info, args):
+    slot = _tls_slot(deref_all(ex, st, args[0]))
+    d = _tls_default(info)
+    v = st.env.get(slot, d)
+    st.env[slot] = d
+    return v
+
+
+@B.path('LocalKey::set')
+def localkey_set(ex, st, info, args):
+    st.env[_tls_slot(deref_all(ex, st, args[0]))] = args[1]
+    return UNIT
+
+
+@B.path('LocalKey::replace')
+def localkey_replace(ex, st, info, args):
+    slot = _tls_slot(deref_all(ex, st, args[0]))
+    v = st.env.get(slot, _tls_default(info))
+    st.env[slot] = args[1]
+    return v
+
+
+@B.path('LocalKey::get')
+def localkey_get(ex, st, info, args):
+    slot = _tls_slot(deref_all(ex, st, args[0]))
+    return st.env.get(slot, _tls_default(info))
+
+
+def tls_residue(env):
+    """[(key, value)] of thread-local cells whose content is not the default of its type"""
+    out = []
+    for k, v in env.items():
+        if not str(k).startswith('tls:'):
+            continue
+        clean = (isinstance(v, Vec) and not v.e) or (isinstance(v, RString) and not v.segs) or \
+                (isinstance(v, Enum) and v.variant == 'None') or (isinstance(v, Int) and v.concrete and v.v == 0) or v is False
+        if not clean:
+            out.append((k, v))
+    return out
+
+
 # ------------------------------------------------------------------------------------------ tracing
 @B.path('LevelFilter::current')
 def levelfilter_current(ex, st, info, args):
